@@ -34,6 +34,7 @@ type ConstFuncParamAnnotator struct {
 var (
 	_ ast.Annotator          = (*ConstFuncParamAnnotator)(nil)
 	_ ast.FuncDeclVisitor    = (*ConstFuncParamAnnotator)(nil)
+	_ ast.FuncDefVisitor     = (*ConstFuncParamAnnotator)(nil)
 	_ ast.FuncCallVisitor    = (*ConstFuncParamAnnotator)(nil)
 	_ ast.AssignStmtVisitor  = (*ConstFuncParamAnnotator)(nil)
 	_ ast.ConditionalVisitor = (*ConstFuncParamAnnotator)(nil)
@@ -41,7 +42,7 @@ var (
 
 func (a *ConstFuncParamAnnotator) ShouldVisit(node ast.Node) bool {
 	switch node.(type) {
-	case *ast.FuncDecl, *ast.DeclStmt:
+	case *ast.FuncDecl, *ast.FuncDef, *ast.DeclStmt:
 		return true
 	default:
 		return a.currentDecl != nil
@@ -97,7 +98,22 @@ func (a *ConstFuncParamAnnotator) VisitFuncDecl(decl *ast.FuncDecl) ast.VisitRes
 	a.CurrentModule.Ast.AddAttachement(decl, attachement)
 	a.currentDecl = decl
 
+	// the body of a forward declaration is the body of its later definition.
+	// It is analysed here, so that the table is final before the first possible call;
+	// the functions declared in between have no table yet and count as not constant
+	if ast.IsForwardDecl(decl) {
+		ast.VisitNode(a, body, nil)
+		a.currentDecl = nil
+		return ast.VisitSkipChildren
+	}
+
 	return ast.VisitRecurse
+}
+
+// the body of the definition of a forward declaration was analysed at the declaration
+func (a *ConstFuncParamAnnotator) VisitFuncDef(def *ast.FuncDef) ast.VisitResult {
+	a.currentDecl = nil
+	return ast.VisitSkipChildren
 }
 
 func (a *ConstFuncParamAnnotator) VisitFuncCall(call *ast.FuncCall) ast.VisitResult {
